@@ -13,7 +13,14 @@ import (
 )
 
 func init() {
-	register("C15", "parsing is total, position-accurate and compositional", func(p *Program, r *Report) { checkC15(p, r); c15Publish(p, r) })
+	register("C15", "parsing is total, position-accurate and compositional", func(p *Program, r *Report) {
+		checkC15(p, r)
+		c15Publish(p, r)
+		if sm, err := buildScanModel(p); err == nil {
+			r.Explain("R9 a token with a fixed spelling consumes exactly its spelling: the net cursor movement on every path that ends with that token text equals the length of the text.")
+			c15ExactSpelling(p, r, sm)
+		}
+	})
 }
 
 func checkC15(p *Program, r *Report) {
@@ -781,4 +788,173 @@ func c15Publish(p *Program, r *Report) {
 	}
 	r.Floor("C15.R8", n, 2)
 	r.Note("C15.R8 publication stores", nPub)
+}
+
+// c15ExactSpelling (R9): a token with a fixed spelling consumes exactly that spelling: on every path of the scanning function that
+// ends with the token text set to a constant string, the net movement of the cursor since the token's first character was looked
+// at equals the length of that string (an unbalanced look-ahead swallows the character after the token, or returns it twice).
+func c15ExactSpelling(p *Program, r *Report, sm *scanModel) {
+	var scan *ssa.Function
+	for _, fn := range sm.methods {
+		if fn.Signature.Results().Len() == 4 {
+			scan = fn
+		}
+	}
+	if scan == nil {
+		r.Undecided("C15.R9", "Scan", "parser/lexer.go", "scanning method not found")
+		return
+	}
+	// the token text result: a phi at the join the returns load from; find phis of string type whose edges include constants
+	var litPhi *ssa.Phi
+	best := 0
+	for _, b := range scan.Blocks {
+		for _, in := range b.Instrs {
+			ph, ok := in.(*ssa.Phi)
+			if !ok {
+				continue
+			}
+			if bt, ok := ph.Type().Underlying().(*types.Basic); !ok || bt.Kind() != types.String {
+				continue
+			}
+			n := 0
+			for _, e := range ph.Edges {
+				if c, ok := e.(*ssa.Const); ok && c.Value != nil && constant.StringVal(c.Value) != "" {
+					n++
+				}
+			}
+			if n > best {
+				best, litPhi = n, ph
+			}
+		}
+	}
+	if litPhi == nil || best < 10 {
+		r.Undecided("C15.R9", "Scan|token text", p.Pos(scan.Pos()), "the merge of the fixed token spellings was not found")
+		return
+	}
+	join := litPhi.Block()
+	// head: the block where the first character of the token is read (the first cursor read that dominates the join)
+	var head *ssa.BasicBlock
+	for d := join; d != nil; d = d.Idom() {
+		for _, in := range d.Instrs {
+			if c, callee := sm.recvCall(in); c != nil && sm.peekLike[callee] {
+				head = d
+			}
+		}
+	}
+	if head == nil {
+		r.Undecided("C15.R9", "Scan|head", p.Pos(scan.Pos()), "the read of the token's first character was not found")
+		return
+	}
+	// weights from the head: only primitive cursor moves count; a composite scanner call makes the path "variable"
+	primW := func(b *ssa.BasicBlock) (int, bool) {
+		w := 0
+		for _, in := range b.Instrs {
+			_, callee := sm.recvCall(in)
+			if callee == nil || sm.pure[callee] {
+				continue
+			}
+			d, ok := sm.step[callee]
+			if !ok {
+				return 0, false
+			}
+			w += d
+		}
+		return w, true
+	}
+	type wset map[int]bool
+	acc := map[*ssa.BasicBlock]wset{}
+	variable := map[*ssa.BasicBlock]bool{}
+	acc[head] = wset{0: true} // moves inside the head block before the read are blank skipping: start counting after it
+	order := []*ssa.BasicBlock{}
+	for _, b := range scan.Blocks {
+		if b != head && head.Dominates(b) {
+			order = append(order, b)
+		}
+	}
+	for iter := 0; iter < len(order)+2; iter++ {
+		changed := false
+		for _, b := range order {
+			if b == join {
+				continue
+			}
+			w, prim := primW(b)
+			for _, pr := range b.Preds {
+				if b.Dominates(pr) {
+					continue // back edge
+				}
+				if variable[pr] || (!prim && acc[pr] != nil) {
+					if !variable[b] && (variable[pr] || !prim) && (acc[pr] != nil || variable[pr]) {
+						variable[b] = true
+						changed = true
+					}
+					continue
+				}
+				for pw := range acc[pr] {
+					if acc[b] == nil {
+						acc[b] = wset{}
+					}
+					if !acc[b][pw+w] {
+						acc[b][pw+w] = true
+						changed = true
+					}
+				}
+			}
+		}
+		if !changed {
+			break
+		}
+	}
+	// moves after the join on the way to the return
+	tail, tailOK := 0, true
+	for b := join; b != nil; {
+		w, prim := primW(b)
+		if !prim {
+			tailOK = false
+			break
+		}
+		tail += w
+		if len(b.Succs) != 1 {
+			break
+		}
+		b = b.Succs[0]
+	}
+	n, per1 := 0, 0
+	for i, e := range litPhi.Edges {
+		lit := ""
+		if c, ok := e.(*ssa.Const); ok && c.Value != nil {
+			lit = constant.StringVal(c.Value)
+		} else if cv, ok := e.(*ssa.Convert); ok {
+			// string(ch): the single character the token started with
+			if bt, ok := cv.X.Type().Underlying().(*types.Basic); ok && bt.Kind() == types.Int32 {
+				lit = "\x00"
+			}
+		}
+		if lit == "" {
+			continue
+		}
+		pr := join.Preds[i]
+		if variable[pr] || acc[pr] == nil || !tailOK {
+			continue
+		}
+		n++
+		want := len([]rune(lit))
+		var got []int
+		bad := false
+		for w := range acc[pr] {
+			got = append(got, w+tail)
+			if w+tail != want {
+				bad = true
+			}
+		}
+		sort.Ints(got)
+		name := fmt.Sprintf("%q", lit)
+		if lit == "\x00" {
+			per1++
+			name = fmt.Sprintf("single character #%d", per1)
+			lit = "that character"
+		}
+		r.Check(!bad, "C15.R9", "Scan|token "+name, p.Pos(instrPos(pr.Instrs[len(pr.Instrs)-1])), fmt.Sprintf("consumes %d character(s)", want),
+			fmt.Sprintf("the token %q is returned after the cursor moved by %v character(s): the character after it is swallowed (or it is scanned again)", lit, got))
+	}
+	r.Floor("C15.R9", n, 25)
 }
